@@ -103,6 +103,9 @@ class Ctx:
     # ------------------------------------------------------------------
     def run_cbmc(self, jobs):
         """Run jobs; replay counterexamples; fill obligations."""
+        eng = os.environ.get('VP_ENGINE')
+        if eng:
+            jobs = [j for j in jobs if re.search(eng, str(j.meta.get('engine')))]
         if not jobs:
             return
         t = time.time()
